@@ -44,7 +44,7 @@ def main():
         if args.pytest:
             test_env = dict(os.environ, PYTHONPATH=os.path.join(wt, "src"))
             res = subprocess.run(
-                ["/venv/bin/python", "-m", "pytest", "-q", "-p", "no:cacheprovider", "-n", "8", "-x"],
+                ["/venv/bin/python", "-m", "pytest", "-q", "-p", "no:cacheprovider"],
                 cwd=wt, env=test_env, capture_output=True, text=True,
             )  # fmt: skip
             print("mutant: repository test suite:", res.stdout.strip().splitlines()[-1] if res.stdout.strip() else res.stderr[-300:])
